@@ -24,6 +24,13 @@ def is_tag(kind, t):
 class ValueOps:
     """mixin; expects self.st (State), self.repo (Repo), self.schema"""
 
+    def fail(self, exc, msg, lineno=0):
+        """a point where python raises `exc`: allowed exit if the contract lists it, else an obligation"""
+        if exc in getattr(self, 'cur_raises', {}) and not self.spec_mode:
+            raise RaisedExc(exc, lineno)
+        self.st.oblige(FALSE, '%s: %s' % (exc, msg), lineno)
+        raise PathInfeasible()
+
     # ------------------------------------------------------------ constants
     def const(self, v):
         if v is None:
@@ -614,3 +621,10 @@ class ValueOps:
 
 class PathInfeasible(Exception):
     """the current path ended at a point that has been turned into an obligation"""
+
+
+class RaisedExc(Exception):
+    """a python exception that the contract under verification allows (raises=...)"""
+    def __init__(self, exc, lineno):
+        self.exc = exc
+        self.lineno = lineno
